@@ -1,10 +1,12 @@
 import CantoVerif.Driver.Coinswap
 import CantoVerif.Driver.Params
 import CantoVerif.Driver.Ante
+import CantoVerif.Driver.Signers
 /-! Line-protocol driver: `lake env lean --run Main.lean <suite> < trace` -/
 def main (args : List String) : IO UInt32 := do
   match args with
   | ["coinswap"] => CV.Drv.Coinswap.main; return 0
   | ["params"] => CV.Drv.Params.main; return 0
   | ["ante"] => CV.Drv.Ante.main; return 0
+  | ["signers"] => CV.Drv.Signers.main; return 0
   | _ => IO.eprintln "usage: Main <suite>"; return 2
